@@ -187,7 +187,9 @@ def _helper_job(helper: str, cfg: Dict[str, Any]) -> Callable[[], Record]:
             idx = g.add("placeholder", "idx", name="idx")
             prev = g.add("call_function", "earlier_op", (x,), {}, name="earlier")
             n_float_args = cfg.get("float_args", 1)
-            nargs: Tuple[Any, ...] = {0: (idx,), 1: (prev, idx), 2: (prev, x)}[n_float_args]
+            # with two float inputs the second one is a float node read by N ONLY (it must survive N's removal)
+            side = g.add("call_function", "side_op", (x,), {}, name="side") if n_float_args == 2 else None
+            nargs: Tuple[Any, ...] = {0: (idx,), 1: (prev, idx), 2: (prev, side)}[n_float_args]
             target = opaque(ctx, "target_N") if helper != "prune_selected_nodes" else ("selected_fn" if cfg["selected"] else "kept_fn")
             node = g.add("call_function", target, nargs, {}, name=_names(cfg)[0])
             a, k = USER_SHAPES[cfg.get("user", "positional")](node, prev)
@@ -204,7 +206,7 @@ def _helper_job(helper: str, cfg: Dict[str, Any]) -> Callable[[], Record]:
                     if n.meta["outputs_float_tensor"] and n.op != "output":
                         n.meta["metrics"] = mk_metrics(it, ctx, n.name, cfg.get("bwd", "both") in ("both",) or (cfg.get("bwd") == "only_node" and n is node) or (cfg.get("bwd") == "only_arg" and n is prev))
                 # keep every other node's scale different from its input so only N is in question
-                for n in (prev, cons):
+                for n in [m_ for m_ in (prev, cons, side) if m_ is not None]:
                     if "metrics" in n.meta and n.input_nodes() and "metrics" in n.input_nodes()[0].meta:
                         m1, m0 = n.meta["metrics"].attrs["fwd"].attrs["mean_abs"], n.input_nodes()[0].meta["metrics"].attrs["fwd"].attrs["mean_abs"]
                         ctx.assume(z3.Not(_isclose_spec(m1, m0, rtol)))
@@ -264,7 +266,7 @@ def _helper_job(helper: str, cfg: Dict[str, Any]) -> Callable[[], Record]:
                     elif (bN is None) != (bA is None):
                         cond = z3.BoolVal(False)
                     ctx.oblige(f"{tag}:node_removed_iff_same_scale_within_rtol{cs}", cond if removed else z3.Not(cond), removed=removed)
-            ctx.oblige(f"{tag}:surviving_nodes_keep_their_order_and_nothing_is_added{cs}", names == [n for n in ["x", "idx", "earlier", nN, "consumer", nOut] if (n != nN or not removed) and not (n == "idx" and helper == "prune_non_float_tensors")], names=names)
+            ctx.oblige(f"{tag}:surviving_nodes_keep_their_order_and_nothing_is_added{cs}", names == [n for n in ["x", "idx", "earlier", "side", nN, "consumer", nOut] if (n != nN or not removed) and not (n == "idx" and helper == "prune_non_float_tensors") and (n != "side" or cfg.get("float_args", 1) == 2)], names=names)
             if removed:
                 c2 = next(n for n in out.nodes if n.name == "consumer")
                 e2 = next(n for n in out.nodes if n.name == "earlier")
